@@ -51,7 +51,7 @@ type vfTok4 struct {
 	val  any
 }
 
-func vfUniverse() string { return []string{"", "u1", "u2"}[vf.Choose(3)] }
+func vfUniverse() string { return []string{"", "u1", "u2", "U1"}[vf.Choose(4)] } // universe names are case sensitive
 
 func vfCborUnmarshal4(data []byte, v any) error {
 	if vf.Bool() {
@@ -177,6 +177,19 @@ func VfC04Request() {
 	resp, err := st.handlePeeringRequest(in)
 	if err != nil {
 		vf.Assert(resp == nil, "response-with-error")
+		// a refused request leaves a session or stored record for its source only if the
+		// presented key material hashed to that address (C01: no record for a rejected identity)
+		if known == nil && (w.inst.st.VfHasRouter(src) || w.inst.st.VfPeerSession(src) != nil) {
+			ds := m.VfDigests()
+			vf.Assert(len(ds) >= 1, "record-stored-for-identity-that-was-not-verified")
+			if len(ds) >= 1 {
+				s16 := src.As16()
+				q := vf.Int()
+				vf.Assume(q >= 0 && q < 16)
+				vf.Assert(ds[0][q] == s16[q], "record-stored-for-key-that-does-not-hash-to-source")
+			}
+			vf.Reach("refused-after-identity-stored")
+		}
 		vf.Reach("refused")
 		return
 	}
@@ -400,6 +413,33 @@ func VfC04Setup() {
 		vf.Reach("registered")
 	} else {
 		vf.Assert(w.p.GetLink(remote) == nil && len(w.p.links) == 0, "link-registered-despite-error")
+		vf.Assert(vf.Count("conn.close") == 1, "connection-not-closed-after-failed-setup")
+		vf.Reach("aborted")
+	}
+}
+
+// VfC04SetupWorker: the same for the accepting side (setupWorker): whatever
+// step fails, no link is registered and the connection is closed; a
+// registered link has link keys and is registered under the verified peer.
+func VfC04SetupWorker() {
+	remote := vfAddr4()
+	w := vfWorld(&m.PublicAddress{IP: remote, PublicKey: ed25519.PublicKey(vfKey4(81, 32))})
+	w.inst.rt = m.NewRoutingTable(m.RoutingTableConfig{RouterIP: w.own})
+	vfSetupState = &peeringRequestState{peering: w.p, session: w.inst.st.VfPeerSession(remote), remoteIP: remote, remoteLite: vf.Bool()}
+	conn := &vfConn{}
+	link := &LinkBase{conn: conn, peering: w.p, closed: make(chan struct{})}
+	err := link.setupWorker(nil)
+	vf.Assert(err == nil, "setup-worker-returned-error")
+	failed := vf.Count("setup.failed") > 0
+	if w.p.GetLink(remote) != nil {
+		vf.Assert(!failed, "link-registered-after-failed-step")
+		vf.Assert(w.p.GetLink(remote) == Link(link) && link.peer == remote, "link-registered-under-other-address")
+		vf.Assert(link.encSession != nil, "link-registered-without-link-keys")
+		vf.Assert(vf.Count("conn.close") == 0, "registered-link-closed")
+		vf.Reach("registered")
+	} else {
+		vf.Assert(len(w.p.links) == 0, "link-registered-despite-error")
+		vf.Assert(failed, "link-not-registered-although-every-step-succeeded")
 		vf.Assert(vf.Count("conn.close") == 1, "connection-not-closed-after-failed-setup")
 		vf.Reach("aborted")
 	}
